@@ -66,6 +66,11 @@ CHECKS = {
    text='encode_circuit / decode_circuit on TLC-enumerated universes: in-format circuits (14 types, format arities, 0-3 inputs, zero outputs, shuffled storage) must encode and decode; circuits with n-ary gates, L*/R* types or operand-less constants must raise a codec error or round-trip. Every produced byte string is decoded twice - by decode_circuit and by the independent TLA+ decoder Codec.DecodeBytes written from the documented format - and TLC compares counts, output truth tables and the bag of gate truth tables with the original. CircuitsDatabase add/save/open/get_by_label, BitWriter/BitReader and the binary dictionary writer/reader (non-ASCII keys, boundaries, every truncation, trailing bytes) are judged as inverses.',
    note='Trusted: TLC, Codec.tla (format as documented; constants carry two ignored operands as in the repository tests), recorder. Byte-level fidelity is judged through decoded meaning - the least natural fit of the technique.',
    tech='independent TLA+ decoder of the documented binary format evaluated by TLC on bytes recorded from cirbo; TLC-enumerated circuits'),
+
+ 'C17': dict(cat='exploration', ref='5 (C17)',
+   text='The raw stored bytes of the shipped AIG and XAIG databases are decoded by the independent TLA+ decoder (Codec.DecodeBytes) and by get_by_label; TLC checks every examined entry for well-formedness, truth table = key and gate types within the database basis (quick: all 1-/2-output entries + a seeded sample of 3-output entries; thorough: all 2 x 349,724 entries, exhaustive over the finite data set). Lookups of all fully defined 2-input 1-2-output and 3-input 1-output tables and sampled 3-output tables (equal / complementary outputs) must compute the requested table in order, or be absent from the key set under an independent normalisation; model lookups must agree with every defined entry and be no larger than the lookup of any completion.',
+   note='Trusted: TLC, Codec.tla, an 8-line independent normalisation for key presence. Exploration level in the quick tier (sampled entries); the thorough tier enumerates the finite data set completely.',
+   tech='independent TLA+ decoder evaluated by TLC on the raw database bytes; recorded lookups validated by TLC'),
 }
 PENDING = 'check not built yet in this round (work in progress; see DESIGN.md section 5)'
 m = {
